@@ -216,7 +216,7 @@ HARNESSES += [
 
 
 HARNESSES += [
-    {"name": "strv_concat", "props": ["C03", "C05", "C04"], "src": "h_strv.c", "contracts": ["public.h"],
+    {"name": "strv_concat", "props": ["C03", "C05", "C04", "C06", "C12"], "safety_props": ["C03", "C12"], "src": "h_strv.c", "contracts": ["public.h"],
      "defs": {"STRV_concat": None, "VERIF_NVEC": "2"}, "defs_thorough": {"VERIF_NVEC": "3"}, "unwind": 8, "unwind_thorough": 10,
      "bounded": "vectors of at most 2 (quick) / 3 (thorough) entries, strings of at most 2 characters",
      "what": "real strv_concat and strv_free with allocation failure at every malloc: contents law, NULL only with ENOMEM, "
